@@ -9,10 +9,13 @@ case; the reference toolchain validates every line, then the llgo-compiled progr
 import os
 
 from . import common as C
+from . import c15sl
 
 SPEC = os.path.join(C.VERIF, "spec", "reflect")
 
 OLD, NEW = 7, 9
+
+FIELDS = ("canset", "caniface", "canaddr", "setpanics", "after", "fmt")
 
 PRELUDE = '''package main
 
@@ -40,9 +43,6 @@ func roProbe(n int, root string, v reflect.Value, nv reflect.Value, get func() i
 	println("R", n, root, canset, caniface, canaddr, panics, get(), text)
 }
 '''
-
-FIELDS = ("canset", "caniface", "canaddr", "setpanics", "after", "fmt")
-
 
 def b(x):
     return "true" if x else "false"
@@ -111,21 +111,24 @@ def parse(text):
             if len(f) == 9:
                 out["R %s %s" % (f[1], f[2])] = {"canset": f[3], "caniface": f[4], "canaddr": f[5], "setpanics": f[6],
                                                  "after": f[7], "fmt": f[8].strip()}
+        elif w and w[0] == "D":
+            c15sl.parse_line(ln, out)
     return out
 
 
 def differing(expect, got):
-    """keys of expect whose observed record differs, with the first differing field"""
+    """keys of expect whose observed record differs, with the first differing field (DeepEqual lines: every differing field)"""
     out = []
     for k, e in expect.items():
         g = got.get(k)
         if g is None:
             out.append((k, "missing"))
             continue
-        for f in FIELDS:
-            if f in e and g.get(f) != e[f]:
+        for f in e:
+            if g.get(f) != e[f]:
                 out.append((k, f))
-                break
+                if not k.startswith("D"):
+                    break
     return out
 
 
@@ -160,6 +163,11 @@ def run(chk):
         if not r["addr"]:      # fmt receives the root by value
             expect["T %d" % n] = {"fmt": text_of(p, r["leaf"], r["stringer"], True)}
             meta["T %d" % n] = r
+    sl_src, sl_call, sl_expect, sl_meta = c15sl.prepare(chk)
+    src.append(sl_src)
+    calls.append(sl_call)
+    expect.update(sl_expect)
+    meta.update(sl_meta)
     src.append("func main() {\n" + "\n".join(calls) + '\n\tprintln("RODONE")\n}')
     d = os.path.join(chk.rd.path, "c15roprog")
     C.write_module(d, {"main.go": "\n\n".join(src) + "\n"}, modname="c15ro")
@@ -175,14 +183,19 @@ def run(chk):
     bad = differing(expect, refres)
     if bad:
         k, f = bad[0]
-        raise C.Undecided("ReflectRO disagrees with the reference toolchain on %d lines, e.g. %s (path %s) field %s: ref %s spec %s"
-                          % (len(bad), k, meta[k]["path"], f, refres.get(k), expect[k]))
+        raise C.Undecided("ReflectRO/SliceEq disagree with the reference toolchain on %d lines, e.g. %s (%s) field %s: ref %s spec %s"
+                          % (len(bad), k, meta[k].get("path") or meta[k], f, refres.get(k), expect[k]))
     # negative control: one corrupted expectation must be flagged by the comparison
     probe = next(k for k in sorted(expect) if k.startswith("R") and meta[k]["class"] == "promoted-through-unexported-embedded" and meta[k]["addr"])
     wrong = dict(expect)
     wrong[probe] = dict(expect[probe], canset="false")
     if [k for k, f in differing(wrong, refres)] != [probe]:
         raise C.Undecided("ReflectRO negative control failed")
+    probe2 = next(k for k in sorted(sl_expect) if sl_meta[k]["rel"] == "same-start-other-length")
+    wrong = dict(expect)
+    wrong[probe2] = dict(expect[probe2], plain="true")
+    if differing(wrong, refres) != [(probe2, "plain")]:
+        raise C.Undecided("SliceEq negative control failed")
 
     exe = os.path.join(d, "llgo.exe")
     ok, out = C.llgo_build(d, exe, opt="O0", rundir=d, timeout=2400)
@@ -194,10 +207,19 @@ def run(chk):
         raise C.Undecided("the llgo-compiled ReflectRO program printed nothing (exit %s):\n%s" % (st, so[-1500:]))
     groups = {}
     for k, f in differing(expect, got):
+        if k.startswith("D"):
+            groups.setdefault(c15sl.key_of(meta[k], f), []).append((k, f))
+            continue
         what = f if k.startswith("R") else "fmt-root"
         groups.setdefault("readonly:%s:%s" % (meta[k]["class"], what), []).append(k)
     for key, ks in sorted(groups.items()):
         k = ks[0]
+        if isinstance(k, tuple):
+            k, f = k
+            chk.reject(key, c15sl.describe(meta[k], f, len(ks), expect[k], got.get(k)),
+                       {"a": meta[k]["a"], "b": meta[k]["b"], "a_go": c15sl.goexpr(meta[k]["a"]), "b_go": c15sl.goexpr(meta[k]["b"]),
+                        "wrap": f, "want": expect[k], "got": got.get(k), "failing_pairs": len(ks)})
+            continue
         r = meta[k]
         n = num[tuple(r["path"])]
         source, lv, leaf = render(n, tuple(r["path"]))
